@@ -248,9 +248,15 @@ CLAIMED.update({
               'terminated in the same state object with the same trace of step functions and arguments, context, future, logs), '
               'C05_same_point_when_quiet_partial, C05_reference_history_is_erasure; for every program and every history of ticks, '
               'pause and play anywhere, and resume / awaitable completion / awaitable-done / call_soon events while no pause is in effect; '
-              'hypothesis: no tick of the reference run exhausts the fuel of the model loop. Wake-ups arriving while the process is '
-              'held, histories with kill / fail / cancel / failing callbacks (def C05_transparent_full) and outputs are decided by the '
-              'correspondence and the monitor c05-transparent against the uninterrupted run of the same program.'),
+              'hypothesis: no tick of the reference run exhausts the fuel of the model loop. Three larger nested classes with their '
+              'same_result / never_ahead corollaries: C05_transparent_partial2 (wake-ups also while held on a wait), _partial3 (also on a '
+              'wait interrupted by a pause request), _partial4 (also - resume, call_soon, non-raising callbacks, completion of futures the '
+              'state just left did not await - while held at a step boundary in CREATED or RUNNING; the reference history defers the tick '
+              'that preceded the hold, C05_reference_history4: the requests other than ticks keep their order); the unrestricted '
+              'C05_transparent_full is refuted on the model for programs awaiting one future under two keys (C05_transparent_full_false), '
+              'the corrected def C05_transparent_full_distinct is open. The remaining interleavings (completion of a just-awaited future '
+              'or a done-callback while held at such a boundary), histories with kill / fail / cancel / failing callbacks and outputs are '
+              'decided by the correspondence and the monitor c05-transparent against the uninterrupted run of the same program.'),
     'C06': pm('History level, for every program and every history in which no callback of the stepping task runs out of the model\'s '
               'fuel (H6.histFuelOk: < 1000 synchronous steps in one callback; C06_witness_fuel_exhaustion / C06_first_resume_wins_full_is_false show the '
               'hypothesis is needed in the model): C06_delivery (in every reachable configuration whose WAITING state holds an outcome v - in its '
